@@ -4,14 +4,17 @@ use crate::core::{Space, Tier};
 
 pub mod c01;
 pub mod c02;
+pub mod c04;
+pub mod c05;
 pub mod c11;
 pub mod c12;
 pub mod c14;
 pub mod c15;
 pub mod c19;
 pub mod c20;
+pub mod gprog;
 
-pub const ALL: &[&str] = &["C01", "C02", "C11", "C12", "C14", "C15", "C19", "C20"];
+pub const ALL: &[&str] = &["C01", "C02", "C04", "C05", "C11", "C12", "C14", "C15", "C19", "C20"];
 
 pub fn intern(id: &str) -> Option<&'static str> {
     ALL.iter().copied().find(|p| *p == id)
@@ -28,6 +31,8 @@ pub fn meta(prop: &str) -> Option<Meta> {
     match prop {
         "C01" => Some(c01::meta()),
         "C02" => Some(c02::meta()),
+        "C04" => Some(c04::meta()),
+        "C05" => Some(c05::meta()),
         "C11" => Some(c11::meta()),
         "C12" => Some(c12::meta()),
         "C14" => Some(c14::meta()),
@@ -42,6 +47,8 @@ pub fn spaces(prop: &str, tier: Tier, seed: u64) -> Vec<Box<dyn Space>> {
     match prop {
         "C01" => c01::spaces(tier, seed),
         "C02" => c02::spaces(tier, seed),
+        "C04" => c04::spaces(tier, seed),
+        "C05" => c05::spaces(tier, seed),
         "C11" => c11::spaces(tier, seed),
         "C12" => c12::spaces(tier, seed),
         "C14" => c14::spaces(tier, seed),
@@ -56,6 +63,7 @@ pub fn spaces(prop: &str, tier: Tier, seed: u64) -> Vec<Box<dyn Space>> {
 pub fn self_check(prop: &str) -> Result<(), String> {
     match prop {
         "C01" | "C02" | "C11" | "C12" => c01::self_check(),
+        "C05" => c05::self_check(),
         "C15" => c15::self_check(),
         "C20" => c20::self_check(),
         _ => Ok(()),
